@@ -31,10 +31,10 @@ def state_terms(model, df):
     return {n_: st.get_tensor_value(n_).clone() for n_ in names}, {t_: float(st.get_tensor_value(t_)) for t_ in ("nll_attach", "nll_regul_ind_sum")}, ds
 
 
-def personalize(model, df, seed, **kw):
+def personalize(model, df, seed, algo="scipy_minimize", **kw):
     from leaspy.io.data import Data
     with quiet():
-        ips = model.personalize(Data.from_dataframe(df), "scipy_minimize", seed=seed, progress_bar=False, **kw)
+        ips = model.personalize(Data.from_dataframe(df), algo, seed=seed, progress_bar=False, **kw)
     return ips._indices, {i: ips[i] for i in ips._indices}
 
 
@@ -93,6 +93,23 @@ def standin_independence(tier, seed):
         if p1[ids[0]] != p2[ids[0]]:
             violations.append(dict(key=f"{kind}: personalised parameters of {ids[0]} changed when other individuals' data changed",
                                    before=str(p1[ids[0]]), after=str(p2[ids[0]])))
+        # sampling-based personalisation: with the same seed the position-indexed draws are the same, so the first individual's
+        # chain -- hence its posterior mean and its lowest-loss draw -- is bit-identical whatever the others' observations are
+        variants = [df2]
+        for transform in (lambda x: 1.0 - x, lambda x: x ** 3, lambda x: np.sqrt(x)):
+            dfv = df.copy()
+            dfv.loc[others, ["f0", "f1", "f2"]] = np.clip(transform(dfv.loc[others, ["f0", "f1", "f2"]].to_numpy()), 0.01, 0.99)
+            variants.append(dfv)
+        for algo in ("mode_posterior", "mean_posterior"):
+            _, q1 = personalize(model, df, seed, algo=algo, n_iter=200, n_burn_in_iter=40)
+            for v_i, dfv in enumerate(variants if algo == "mode_posterior" else variants[:1]):
+                _, q2 = personalize(model, dfv, seed, algo=algo, n_iter=200, n_burn_in_iter=40)
+                evals += 1
+                distinct.add((kind, "perso-" + algo, v_i))
+                if q1[ids[0]] != q2[ids[0]]:
+                    violations.append(dict(key=f"{kind}: {algo} parameters of {ids[0]} changed when other individuals' data changed",
+                                           before=str(q1[ids[0]]), after=str(q2[ids[0]])))
+                    break
         # ... and the other way round: only the FIRST individual's observations change (same visits, same order, same seed);
         # every other individual is optimised from the same start on the same data and must come out bit-identical
         df4 = df.copy()
